@@ -18,7 +18,7 @@ from gmg import dag, ir, opsdom, report, tab_ops, tab_smoother
 def shapes(tier):
     # smoothing levels: ntheta % 4 == 0, nsc >= 2, lsr >= 3
     if tier == "quick":
-        return [(7, 8, 3, False), (6, 8, 2, True), (8, 4, 4, False)]
+        return [(7, 8, 3, False), (6, 8, 2, True), (8, 4, 4, False), (7, 12, 3, True), (9, 16, 5, False)]
     return [(nr, nt, nsc, d) for (nr, nt) in ((6, 4), (7, 8), (8, 8), (9, 12)) for nsc in (2, 3, 4) if nr - nsc >= 3 for d in (False, True)]
 
 
